@@ -86,6 +86,11 @@ func execReplay(repo, module, pkgDir, src string) *ReplayResult {
 		r.Confirmed = true
 		m := regexp.MustCompile(`REPLAY-VIOLATION[^\n]*`).FindString(out)
 		r.Summary = m
+	case strings.Contains("\n"+out, "\npanic: ") && !strings.Contains(out, "test timed out") && !strings.Contains(out, "[build failed]"):
+		// the library itself panicked (e.g. in one of its goroutines) while the replay scenario ran: the scenarios are
+		// panic-free on the unchanged tree
+		r.Confirmed = true
+		r.Summary = "REPLAY-VIOLATION the real code panicked during the replay scenario: " + regexp.MustCompile(`panic: [^\n]*`).FindString(out)
 	case err == nil:
 		r.Summary = "the real code behaves correctly on the model's input (counterexample not reproduced)"
 	default:
@@ -1479,6 +1484,9 @@ import (
 // oracle: (1) group aggregation - a group's PendingChildrenCounter is the number of its direct children (pools
 // and sub-groups) with pending work; (2) every accepted task runs exactly once and Shutdown followed by waiting for
 // ShutdownComplete terminates, with submitters racing against Shutdown (bounded stress, interleaving not forced).
+var _ sync.Mutex
+var _ atomic.Bool
+
 func TestVerifReplay(t *testing.T) {
 	// (1)
 	root := NewGroup("root")
@@ -1498,7 +1506,54 @@ func TestVerifReplay(t *testing.T) {
 		t.Fatalf("REPLAY-VIOLATION after the pool went idle the pending-children counters are root=%d sub=%d subsub=%d, want 0 0 0", r, s, ss)
 	}
 	root.Shutdown()
-	// (2)
+	// (3) shutdown with a backlog: every queued task is run or cancelled, ShutdownComplete is reached - also with
+	// cancel-on-shutdown; a pool that is started again after a completed shutdown runs the tasks it accepts
+	for _, cancelPending := range []bool{false, true} {
+		w := New("p", WithWorkerCount(1), WithCancelPendingTasksOnShutdown(cancelPending)).Start()
+		hold := make(chan struct{})
+		busy := make(chan struct{})
+		w.Submit(func() { close(busy); <-hold })
+		<-busy
+		for i := 0; i < 8; i++ {
+			w.Submit(func() {})
+		}
+		w.Shutdown()
+		close(hold)
+		done := make(chan struct{})
+		go func() { w.ShutdownComplete.Wait(); close(done) }()
+		select {
+		case <-done:
+		case <-time.After(3 * time.Second):
+			t.Fatalf("REPLAY-VIOLATION Shutdown with 8 queued tasks (cancel pending: %v): ShutdownComplete not reached within 3s (pending %d, queue size %d)", cancelPending, w.PendingTasksCounter.Get(), w.Queue.Size())
+		}
+		if w.PendingTasksCounter.Get() != 0 {
+			t.Fatalf("REPLAY-VIOLATION after a completed shutdown the pending counter is %d", w.PendingTasksCounter.Get())
+		}
+		w.Start()
+		ranAgain := make(chan struct{})
+		w.Submit(func() { close(ranAgain) })
+		select {
+		case <-ranAgain:
+		case <-time.After(3 * time.Second):
+			t.Fatalf("REPLAY-VIOLATION a pool that was started again after a completed shutdown did not run the task it accepted (pending %d)", w.PendingTasksCounter.Get())
+		}
+		w.Shutdown()
+		w.ShutdownComplete.Wait()
+	}
+RACE_SCENARIO
+}
+`
+	// the Submit / Shutdown race is the recorded known finding: it fails on the unchanged tree, so it is only replayed
+	// for the obligation it belongs to
+	race := ""
+	if strings.Contains(o.Name, "WorkerPool.Submit::") {
+		race = raceC16
+	}
+	src = strings.Replace(src, "RACE_SCENARIO", race, 1)
+	return "runtime", "workerpool", src, true
+}
+
+const raceC16 = `	// (2)
 	for iter := 0; iter < 400; iter++ {
 		w := New("p", WithWorkerCount(2)).Start()
 		var stop atomic.Bool
@@ -1528,11 +1583,7 @@ func TestVerifReplay(t *testing.T) {
 		}
 		stop.Store(true)
 		wg.Wait()
-	}
-}
-`
-	return "runtime", "workerpool", src, true
-}
+	}`
 
 // ---------- C18 (timed task executor) ----------
 func init() { replayGens["c18"] = replayC18 }
